@@ -6,7 +6,6 @@ package c15
 
 import (
 	"context"
-	"errors"
 	"flag"
 	"fmt"
 	"os"
@@ -176,7 +175,21 @@ func runCase(t fatalf, c *caseSpec) (peak int32) {
 				spec := spec
 				o := outcomes[si][k]
 				name := fmt.Sprintf("s%d.%d", si, k)
-				wantErr := fmt.Errorf("err-%s", name)
+				// what the function returns: nothing, a plain error, or one of the values that managed code elsewhere
+				// treats specially (a cancelled context is "no error" for service workers, not here)
+				var wantErr error
+				switch (si + 3*k) % 6 {
+				case 0:
+					wantErr = nil
+				case 1, 2:
+					wantErr = fmt.Errorf("err-%s", name)
+				case 3:
+					wantErr = context.Canceled
+				case 4:
+					wantErr = fmt.Errorf("err-%s: %w", name, context.Canceled)
+				default:
+					wantErr = context.DeadlineExceeded
+				}
 				body := func(ctx context.Context) error {
 					atomic.AddInt32(&o.runs, 1)
 					if spec.Prio != "high" {
@@ -213,7 +226,7 @@ func runCase(t fatalf, c *caseSpec) (peak int32) {
 						if ok, me := modules.IsPanic(err); !ok || me == nil || me.PanicValue != "boom-"+name {
 							problem("C15-2-error: %s panicked but the blocking call returned %v", name, err)
 						}
-					} else if !errors.Is(err, wantErr) {
+					} else if err != wantErr {
 						problem("C15-2-error: %s returned %v to its caller, the function returned %v", name, err, wantErr)
 					}
 				case "start":
